@@ -188,3 +188,47 @@ def histories_equal(ctx, ha, hb, label, detail):
 
 def shared_functions(ctx):
     return {"loss": ConsistentLoss(), "model": model_uf(1, 2, 1)}
+
+
+@contextlib.contextmanager
+def rl_baton(agent_first=False):
+    """Real RL-scheduler threads under the baton scheduler with a FIXED schedule: always the first enabled thread (the
+    calibration thread runs until it blocks) or always the last one (a freshly started / woken agent runs first). That the
+    outcome does not depend on the schedule is C10's result; here the two extreme schedules are run."""
+    import threading
+
+    import black_it.schedulers.rl.envs.base as envbase
+    import black_it.schedulers.rl.rl_scheduler as rls
+    from harness.C10 import _install_flag
+    from symx.baton import Baton, make_shims
+    from symx.npx import sym_float
+
+    holder = {}
+    baton = Baton((lambda n, labels: n - 1) if agent_first else (lambda n, labels: 0))
+    holder["b"] = baton
+    BThread, BQueue = make_shims(lambda: holder["b"])
+
+    class _Threading:
+        Thread = BThread
+
+        def __getattr__(self, n):
+            return getattr(threading, n)
+
+    prop = _install_flag(lambda: holder["b"])
+    with patched(envbase, Queue=BQueue), patched(rls, threading=_Threading(), float=sym_float, np=NPX), patched(rls.RLScheduler, _stopped=prop):
+        try:
+            yield baton
+        finally:
+            baton.kill_all()
+
+
+def make_rl_calibrator(ctx, lineup, S, ctor_seeds, n_jobs, verbose, folder, shared, eps, alpha, E=1):
+    from black_it.schedulers.rl.agents.epsilon_greedy import MABEpsilonGreedy
+    from black_it.schedulers.rl.envs.mab import MABCalibrationEnv
+    from black_it.schedulers.rl.rl_scheduler import RLScheduler
+
+    samplers = [make_sampler(kind, B, ctor_seeds[i]) for i, (kind, B) in enumerate(lineup)]
+    n_eff = len(samplers) + (0 if any(k == "halton" for k, _ in lineup) else 1)
+    sched = RLScheduler(samplers, MABEpsilonGreedy(n_eff, alpha, eps, random_state=ctor_seeds[-1]), MABCalibrationEnv(n_eff), random_state=ctor_seeds[-2])
+    return cal.Calibrator(loss_function=shared["loss"], real_data=np.zeros((2, 1)), model=shared["model"], parameters_bounds=[[0.0], [1.0]],
+                          parameters_precision=[0.25], ensemble_size=E, scheduler=sched, verbose=verbose, saving_folder=folder, random_state=S, n_jobs=n_jobs)
